@@ -34,11 +34,18 @@ def _fails_same(hist, want_class, want_what=None):
     return True
 
 
-def shrink(hist, want_class, budget=120, want_what=None):
+def shrink(hist, want_class, budget=120, want_what=None, seconds=90.0):
     """greedy delta-debugging: drop steps, then shrink pixel lists of update steps; the shrunk
-    history must still show a mismatch of the same class and the same kind (first 32 characters)"""
+    history must still show a mismatch of the same class and the same kind (first 32 characters).
+    Bounded both by a number of re-runs and by wall-clock time (a failing history on a deep map can
+    take seconds per re-run); an unshrunk history is still a valid replay."""
+    import time as _time
     cur = list(hist)
     tests = 0
+    t_end = _time.time() + seconds
+
+    def _left():
+        return _time.time() < t_end
     if want_what is None:
         try:
             mm0 = run_batch([hist])[0]
@@ -47,7 +54,7 @@ def shrink(hist, want_class, budget=120, want_what=None):
             want_what = None
     # 1. cut after the first failing check
     changed = True
-    while changed and tests < budget:
+    while changed and tests < budget and _left():
         changed = False
         for i in range(len(cur) - 1, 0, -1):
             if cur[i]['op'] == 'mk':
@@ -58,14 +65,14 @@ def shrink(hist, want_class, budget=120, want_what=None):
                 cur = cand
                 changed = True
                 break
-            if tests >= budget:
+            if tests >= budget or not _left():
                 break
     # 2. shrink pixel/value lists
     for i, st in enumerate(cur):
         if st['op'] != 'upd' or st.get('form') in ('setitem_slice', 'setitem_int', 'range'):
             continue
         j = 0
-        while j < len(cur[i]['pixels']) and len(cur[i]['pixels']) > 1 and tests < budget:
+        while j < len(cur[i]['pixels']) and len(cur[i]['pixels']) > 1 and tests < budget and _left():
             st2 = dict(cur[i])
             st2['pixels'] = cur[i]['pixels'][:j] + cur[i]['pixels'][j + 1:]
             if isinstance(st2.get('values'), list) and not st2.get('single'):
